@@ -8,6 +8,10 @@
    creates the entry).  `nSent`/`nFailed` count the `PaymentSent`/`PaymentFailed` events pushed for the id,
    `claimHits` says that a `claim_htlc` for the id ran while the entry owned HTLCs. -/
 import LdkModel.Proofs.OutboundPay
+import LdkModel.Proofs.OutboundFee
+import LdkModel.Proofs.OutboundRetry
+import LdkModel.Proofs.OutboundProbe
+import LdkModel.Proofs.OutboundRestart
 namespace Ldk.C03
 open Ldk Ldk.OutboundPay
 
@@ -396,5 +400,192 @@ example : get (run s1000 [.sendR 1 [(1, .err), (2, .err)] false, .retryR 1 [(3, 
 example : (run s1000 [.sendR 1 [(1, .ok), (2, .bad)] false]).2 = [.pathFailed 1 2, .failed 1 .unexpectedError] ∧
     get (run s1000 [.sendR 1 [(1, .ok), (2, .bad)] false]).1.cur 1 = .absent ∧
     flight 1 s1000 [] [.sendR 1 [(1, .ok), (2, .bad)] false] = [] := by decide
+
+
+/-! ## Routing fees: `pending_fee_msat`, `remaining_max_total_routing_fee_msat`, `PaymentSent.fee_paid_msat`
+
+    `OutboundFee.Ledger` (Model/OutboundFee.lean) is the fee side of one `Retryable` entry; its arithmetic is
+    `Generated/OutboundFee.lean`, re-translated from `PendingOutboundPayment::{insert, remove}` on every run.
+    An op list is ANY interleaving of `insert` (create_pending_payment, find_route_and_send_payment,
+    insert_from_monitor_on_startup) and `remove` (fail_htlc, handle_pay_route_err, claim from on-chain) calls, with
+    duplicates and unknown session privs. -/
+
+/-- `pending_fee_msat` is exactly the sum of the path fees of the parts the entry holds — for every op list, with or
+    without a fee budget; in particular the `-=` of `remove` never underflows. -/
+theorem pending_fee_is_in_flight_fee_sum (routeMax : Option Nat) (ops : List OutboundFee.FOp) :
+    ((OutboundFee.Ledger.new routeMax).run ops).fee = some ((OutboundFee.Ledger.new routeMax).run ops).sumFees ∧
+    (OutboundFee.keysF ((OutboundFee.Ledger.new routeMax).run ops).parts).Nodup := by
+  have h := OutboundFee.invFee_run ops (OutboundFee.Ledger.new routeMax)
+    ⟨by simp [OutboundFee.Ledger.new, OutboundFee.keysF], by simp [OutboundFee.Ledger.new, OutboundFeeGen.newFee, OutboundFee.sumF]⟩
+  exact ⟨h.fee, h.nodup⟩
+
+example : ((OutboundFee.Ledger.new (some 5000)).run [.ins 1 1000, .ins 2 2000, .rem 1, .rem 1, .rem 9, .ins 3 500]).fee = some 2500 := by
+  decide
+
+/-- The fees of all parts in flight never exceed `max_total_routing_fee_msat` — as long as every route handed back by
+    the router keeps within the budget it was asked with (`Fits`: each inserted path's fee fits what is left; the
+    budget handed to the router IS the ledger's `remaining_max_total_routing_fee_msat`, `retryBudget`).  Then
+    fee in flight + budget left = the initial budget after every op, for every op list. -/
+theorem fees_in_flight_never_exceed_max (m : Nat) (hm : m ≤ OutboundFeeGen.U64_MAX) (ops : List OutboundFee.FOp)
+    (hfit : OutboundFee.Fits (OutboundFee.Ledger.new (some m)) ops) :
+    ∃ r, ((OutboundFee.Ledger.new (some m)).run ops).rem = some r ∧
+      ((OutboundFee.Ledger.new (some m)).run ops).sumFees + r = m ∧
+      ((OutboundFee.Ledger.new (some m)).run ops).sumFees ≤ m := by
+  have h := OutboundFee.inv_run (some m) ops _ (OutboundFee.inv_new (some m) (by intro mm h; cases h; exact hm)) hfit
+  obtain ⟨r, hr, hs, _⟩ := h.rem
+  exact ⟨r, hr, hs, by unfold OutboundFee.Ledger.sumFees; unfold OutboundFee.sumF at hs; omega⟩
+
+example : OutboundFee.Fits (OutboundFee.Ledger.new (some 3000)) [.ins 1 1000, .ins 2 2000, .rem 1, .ins 3 900] ∧
+    ((OutboundFee.Ledger.new (some 3000)).run [.ins 1 1000, .ins 2 2000, .rem 1, .ins 3 900]).rem = some 100 := by
+  refine ⟨?_, by decide⟩
+  simp only [OutboundFee.Fits]
+  refine ⟨fun _ r hr => ?_, fun _ r hr => ?_, fun _ r hr => ?_, trivial⟩ <;>
+    (simp [OutboundFee.Ledger.new, OutboundFee.Ledger.insert, OutboundFee.Ledger.remove, OutboundFee.Ledger.has,
+      OutboundFeeGen.newRemaining, OutboundFeeGen.newFee, OutboundFeeGen.insertRemaining, OutboundFeeGen.insertFee,
+      OutboundFeeGen.removeRemaining, OutboundFeeGen.removeFee, OutboundFeeGen.U64_MAX] at hr; omega)
+-- the hypothesis is needed: this module does not enforce the budget itself (`saturating_sub` hides an overdraft) — a
+-- route whose fee exceeds what is left is accepted and the in-flight fees then exceed the maximum
+example : ((OutboundFee.Ledger.new (some 1000)).run [.ins 1 900, .ins 2 900]).sumFees = 1800 ∧
+    ((OutboundFee.Ledger.new (some 1000)).run [.ins 1 900, .ins 2 900]).rem = some 0 := by decide
+
+/-- `PaymentSent.fee_paid_msat` (the pending fee read by claim_htlc before mark_fulfilled) is the sum of the path fees of
+    the parts the payment holds when the first claim arrives: parts that failed while the payment was Retryable are
+    not counted. -/
+theorem sent_fee_is_sum_of_held_parts (routeMax : Option Nat) (ops : List OutboundFee.FOp) :
+    ((OutboundFee.Ledger.new routeMax).run ops).feePaid = some ((OutboundFee.Ledger.new routeMax).run ops).sumFees :=
+  (pending_fee_is_in_flight_fee_sum routeMax ops).1
+
+example : ((OutboundFee.Ledger.new none).run [.ins 1 1000, .ins 2 1000, .rem 2]).feePaid = some 1000 := by decide
+
+
+/-! ## Retry strategies: how often the router is asked
+
+    `OutboundRetry.RetrySt` (Model/OutboundRetry.lean) is the retry side of one payment (`retry_strategy`,
+    `attempts.count`, still-`Retryable`); one `call` = one `find_route_and_send_payment` after the router answered
+    (`noRoute`, a route that fails the overflow test, a route).  The gate expressions are generated from
+    `Retry::is_retryable_now` and `PendingOutboundPayment::{is_retryable_now, is_auto_retryable_now}`; the translator
+    pins that the router is asked before the gate and that `increment_attempts()` runs once per passing call.
+    `run` returns (final state, calls that sent HTLCs, router calls made while the entry was Retryable); calls are
+    arbitrary: chained by handle_pay_route_err, issued by check_retry_payments, or aimed at a payment that is gone. -/
+
+/-- `Retry::Attempts(n)`: whatever the call list, at most `n` retries send HTLCs, and the router is asked at most `n + 1`
+    times for a payment that is still Retryable (the extra call is the one that finds the budget exhausted and abandons
+    the payment); after that no call sends anything. -/
+theorem retry_calls_bounded_by_attempts (n : Nat) (calls : List (Nat × OutboundRetry.Answer)) :
+    (({ strategy := .attempts n } : OutboundRetry.RetrySt).run calls).2.1 ≤ n ∧
+    (({ strategy := .attempts n } : OutboundRetry.RetrySt).run calls).2.2 ≤ n + 1 := by
+  exact OutboundRetry.attempts_bound n calls _ rfl rfl rfl
+
+example : (({ strategy := .attempts 2 } : OutboundRetry.RetrySt).run
+    [(0, .route), (0, .route), (0, .route), (0, .route), (0, .route)]).2 = (2, 3) := by decide
+
+/-- `Retry::Timeout(d)` with injected time: a call made later than `d` after the first attempt never sends HTLCs — from
+    any state of the payment. -/
+theorem timeout_retries_only_within_duration (d : Nat) (r : OutboundRetry.RetrySt) (calls : List (Nat × OutboundRetry.Answer))
+    (hs : r.strategy = .timeout d) (hlate : ∀ c ∈ calls, c.1 > d) : (r.run calls).2.1 = 0 :=
+  OutboundRetry.run_timeout d calls r hs hlate
+
+example : (({ strategy := .timeout 10 } : OutboundRetry.RetrySt).run [(3, .route), (10, .route), (11, .route), (4, .route)]).2 = (2, 3) := by
+  decide
+
+/-- check_retry_payments retries a payment only if `is_auto_retryable_now()`: never a payment without a retry strategy
+    (manual retries), never one that has left `Retryable`, never one whose gate is closed; and a call for a payment that
+    has left `Retryable` sends nothing and leaves it as it is. -/
+theorem auto_retry_only_when_gate_open (r : OutboundRetry.RetrySt) (elapsed : Nat) :
+    (r.isAutoRetryableNow elapsed = true →
+        r.strategy ≠ .manual ∧ r.retryable = true ∧ r.paramsSome = true ∧ r.strategy.gate r.count elapsed = true) ∧
+    (r.retryable = false → ∀ a, r.call elapsed a = (r, false)) := by
+  constructor
+  · intro h
+    unfold OutboundRetry.RetrySt.isAutoRetryableNow OutboundSendGen.isAutoRetryableNow OutboundRetry.RetrySt.variant at h
+    cases hs : r.strategy <;> cases hr : r.retryable <;> cases hp : r.paramsSome <;>
+      simp_all [OutboundRetry.Strategy.isSome]
+  · intro h a; simp [OutboundRetry.RetrySt.call, h]
+
+example : ({ strategy := .attempts 1 } : OutboundRetry.RetrySt).isAutoRetryableNow 0 = true ∧
+    ({ strategy := .attempts 1, count := 1 } : OutboundRetry.RetrySt).isAutoRetryableNow 0 = false ∧
+    ({ strategy := .manual } : OutboundRetry.RetrySt).isAutoRetryableNow 0 = false ∧
+    ({ strategy := .manual } : OutboundRetry.RetrySt).isRetryableNow 0 = true := by decide
+
+
+/-! ## Probes (`send_probe`)
+
+    A probe is a single-path entry of the same map; `fail_htlc` recognises it by its payment hash (`payment_is_probe`).
+    `OutboundProbe.failProbe` runs the generated decisions of fail_htlc with `payment_is_probe = true` on the same
+    `PState` (Model/OutboundProbe.lean); `abandon` / `sweep` / `tick` are the ordinary `stepP` ops. -/
+
+/-- A probe reports exactly one outcome, and nothing else.  After `send_probe` with ANY per-path result: either no entry
+    is left and then no HTLC is in flight (the probe was not sent: no event will come), or the HTLC is in flight and
+    then for EVERY later op list (failures of its HTLC incl. duplicates and foreign session privs, with any flags;
+    abandon_payment; check_retry_payments sweeps; timer ticks): every event pushed for the id is `ProbeSuccessful` or
+    `ProbeFailed` for its path — never `PaymentSent` / `PaymentFailed` / `PaymentPathFailed` —, at most one is pushed,
+    exactly one once the entry is gone, and the failure of its HTLC always ends it at once. -/
+theorem probe_exactly_one_outcome (amt : Amt) (id : PayId) (p : PartId) (res : PathIn) (ops : List OutboundProbe.ProbeOp) :
+    ((OutboundProbe.sendProbe amt .absent p res).1 = .absent ∧ res.inFlight = false) ∨
+    (res.inFlight = true ∧
+      (∀ e ∈ (OutboundProbe.runProbe amt id (OutboundProbe.sendProbe amt .absent p res).1 ops).2,
+          e = .probeSuccessful p ∨ e = .probeFailed p) ∧
+      (OutboundProbe.runProbe amt id (OutboundProbe.sendProbe amt .absent p res).1 ops).2.length ≤ 1 ∧
+      ((OutboundProbe.runProbe amt id (OutboundProbe.sendProbe amt .absent p res).1 ops).1 = .absent ↔
+        (OutboundProbe.runProbe amt id (OutboundProbe.sendProbe amt .absent p res).1 ops).2.length = 1) ∧
+      (∀ auto perm, (OutboundProbe.failProbe amt (OutboundProbe.sendProbe amt .absent p res).1 p auto perm).1 = .absent ∧
+        (OutboundProbe.failProbe amt (OutboundProbe.sendProbe amt .absent p res).1 p auto perm).2 =
+          [if perm then .probeSuccessful p else .probeFailed p])) := by
+  rcases OutboundProbe.sendProbe_cases amt p res with h | ⟨hl, hf⟩
+  · exact Or.inl h
+  · right
+    refine ⟨hf, ?_, ?_, ?_, fun auto perm => OutboundProbe.failProbe_own amt p auto perm _ hl⟩
+    all_goals rcases OutboundProbe.run_live amt id p ops _ hl with ⟨hl', he⟩ | ⟨ha, e, he, ho⟩
+    · rw [he]; simp
+    · rw [he]; intro e' he'; simp at he'; subst he'; exact ho
+    · rw [he]; simp
+    · rw [he]; simp
+    · rw [he]
+      rcases hl' with ⟨a, t, h1⟩ | ⟨r, h1⟩ <;> simp [h1]
+    · rw [he, ha]; simp
+
+-- paused behind a monitor update: send_probe answers Err, but the entry stays and the outcome is reported later
+example : OutboundProbe.sendProbe (fun _ => 7) .absent 1 .mip = (.retryable [1] 7 7, false) ∧
+    OutboundProbe.runProbe (fun _ => 7) 5 (.retryable [1] 7 7)
+      [.tick false, .fail 2 false false, .abandon .userAbandoned, .sweep false, .fail 1 false true, .fail 1 false true] =
+      (.absent, [.probeSuccessful 1]) ∧
+    OutboundProbe.sendProbe (fun _ => 7) .absent 1 .err = (.absent, false) := by decide
+
+
+/-! ## Restarts from a stale manager -/
+
+/-- Restarts from ANY earlier snapshot of the manager never turn a claimed payment into a failed one.
+    Compared with `restart_never_contradicts_partial` the run may contain the send itself (so the snapshot may predate
+    it), and at every start-up the monitors may re-insert ANY part they still report — failed and pending ones too, in
+    any order, interleaved with other payments (`insert_from_monitor_on_startup` runs for every HTLC of every closed
+    channel's monitor).  `AllOk` (Proofs/OutboundRestart.lean, `OkAt`) admits, in each state: `restore` and `insert`
+    always; the creating send if it contains a part that `truth` marks claimed; anything else that touches the payment
+    (replayed or live claims / fails agreeing with `truth`, abandon, retries, sweeps, ticks, persist) only once the entry
+    is `Good` — gone, Fulfilled, or holding a claimed part.
+    PARTIAL — the one thing still assumed: after a restart, by the time the first replayed resolution (or anything other
+    than a further insert) reaches the rebuilt entry, it is Good; i.e. the restored snapshot already knew a claimed part /
+    the fulfilment, or the monitors still report a claimed part.  It fails exactly when the claimed part has been
+    released by its monitor (`htlcs_resolved_to_user`, after the user handled PaymentSent) while the manager on disk
+    predates the send and a failed part is still reported: the second example below.  That release-before-manager-write
+    window is ChannelManager / ChannelMonitor coupling (C10), not part of this module.  Also not covered: a payment whose
+    claimed part is first sent by a later RETRY (the creating send must contain a part that `truth` marks claimed). -/
+theorem restart_from_stale_manager_never_contradicts_partial (truth : PartId → Bool) (id : PayId) (s : State)
+    (ops : List Op) (hwf : WF s) (hc : Good truth (get s.cur id)) (hs : Good truth (get s.snapCur id))
+    (hok : AllOk truth id s ops) : nFailed id (run s ops).2 = 0 :=
+  stale_run truth id ops s hwf (Or.inl hc) hs hok
+
+-- the manager on disk predates the send; the monitors report the failed part first, then the claimed one: admissible,
+-- PaymentSent is repeated, never contradicted
+example : AllOk (fun p => p == 1) 1 init
+      [.persist, .send 1 [1, 2], .claim 1 1 false, .handle, .restore, .insert 1 2, .insert 1 1, .claim 1 1 true,
+       .fail 1 2 false false] ∧
+    (run init [.persist, .send 1 [1, 2], .claim 1 1 false, .handle, .restore, .insert 1 2, .insert 1 1, .claim 1 1 true,
+       .fail 1 2 false false]).2 = [.sent 1, .sent 1, .pathOk 1 1] := by decide
+-- the hypothesis fails (and PaymentFailed follows PaymentSent) when the claimed part is no longer reported and the manager
+-- on disk predates the send
+example : ¬ AllOk (fun p => p == 1) 1 init
+      [.persist, .send 1 [1, 2], .claim 1 1 true, .handle, .restore, .insert 1 2, .fail 1 2 false false] ∧
+    (run init [.persist, .send 1 [1, 2], .claim 1 1 true, .handle, .restore, .insert 1 2, .fail 1 2 false false]).2 =
+      [.sent 1, .pathOk 1 1, .pathFailed 1 2, .failed 1 .retriesExhausted] := by decide
 
 end Ldk.C03
